@@ -1,10 +1,11 @@
 """C07 — buffered channel configuration reaches the device exactly at write time.
 
 Cases are lines of the Lean driver op `cfgx run` (lean/NxsModel/Driver/ConfigExt.lean; format in harness/c07lib.py):
-every dimension of the property's quantifier is explicit in the line — flags, rx padding, which handler is driven
-(CommHandler, or the NxscopeHandler wrappers called without / with `writenow`), stream left running at connect time,
-stream running during the exchange, channel count, initial device state, the call history (Python channel ids:
-negative = from the end, True/False = 1/0).  A few lines of the older op `cfg run` (no padding / ids / writenow in
+every dimension of the property's quantifier is explicit in the line — the flags byte (0..255), rx padding, which handler
+is driven (CommHandler, or the NxscopeHandler wrappers called without / with `writenow`), stream left running at connect
+time (frames really in the pipe), stream running during the exchange (read / unread), channel types (UNDEF, critical bit),
+a previous session on the same handler object (reconnect), channel count, initial device state, the call history (Python
+channel ids: negative = from the end, True/False = 1/0).  A few lines of the older op `cfg run` (no padding / ids / writenow in
 the model; those dimensions chosen by a hash of the line and the padding stripped before comparing) are kept.
 """
 import os
@@ -25,8 +26,32 @@ def _wired():
         return False
 
 
-def gen_ids(rng, n, ext):
-    cs = sorted(set(rng.randrange(n) for _ in range(rng.choice([1, 1, 1, 2, 3]))))
+VALID_TYPES = list(range(1, 20))
+ALL_TYPES = [0, 0, 0x80, 0x20, 0x2A] + VALID_TYPES + [t | 0x80 for t in VALID_TYPES]
+
+
+def gen_flags(rng):
+    """the two meaningful bits in every combination, the reserved bits anything"""
+    base = rng.randrange(4)
+    r = rng.random()
+    return base if r < 0.5 else base | rng.choice([0x80, 0x04, 0xFC, 0x40]) if r < 0.7 else base | (rng.randrange(64) << 2)
+
+
+def gen_types(rng, n, streaming):
+    r = rng.random()
+    if r < 0.45:
+        return None
+    if streaming:
+        return [rng.choice(VALID_TYPES) | (0x80 if rng.random() < 0.25 else 0) for _ in range(n)]
+    if r < 0.6:
+        return [rng.choice([0, 0, 10, 0x80, 0x8A]) for _ in range(n)]
+    return [rng.choice(ALL_TYPES) for _ in range(n)]
+
+
+def gen_ids(rng, n, ext, big=False):
+    """big: (n > 128) half of the ids drawn from 128..n-1"""
+    cs = sorted(set(rng.randrange(128, n) if (big and rng.random() < 0.5) else rng.randrange(n)
+                    for _ in range(rng.choice([1, 1, 1, 2, 3]))))
     out = []
     for c in cs:
         r = rng.random() if ext else 1.0
@@ -39,18 +64,18 @@ def gen_ids(rng, n, ext):
     return ",".join(out)
 
 
-def gen_history(rng, n, outcomes="a", maxlen=14, ext=False, high=False):
+def gen_history(rng, n, outcomes="a", maxlen=14, ext=False, high=False, big=False):
     """ext: Python ids (negative, bool); high: setters may carry `!` (writenow=True)"""
     ops = []
     for _ in range(rng.randrange(1, maxlen + 1)):
         r = rng.random()
         bang = "!" if (ext and high and rng.random() < 0.2) else ""
         if r < 0.18:
-            ops.append("e" + gen_ids(rng, n, ext) + bang)
+            ops.append("e" + gen_ids(rng, n, ext, big) + bang)
         elif r < 0.30:
-            ops.append("d" + gen_ids(rng, n, ext) + bang)
+            ops.append("d" + gen_ids(rng, n, ext, big) + bang)
         elif r < 0.47:
-            ops.append(f"v{rng.choice([0, 1, 2, 127, 128, 200, 255, rng.randrange(256)])}:" + gen_ids(rng, n, ext) + bang)
+            ops.append(f"v{rng.choice([0, 1, 2, 127, 128, 200, 255, rng.randrange(256)])}:" + gen_ids(rng, n, ext, big) + bang)
         elif r < 0.57:
             ops.append("D" + bang)
         elif r < 0.67:
@@ -112,14 +137,22 @@ class C07(Prop):
     rule = ("random configuration histories (enable/disable/divider/default/all + writes, 1..16 calls) on the real CommHandler "
             "and (half of the lines) through the NxscopeHandler wrappers — called without their writenow argument, and a fifth of "
             "the setter calls with writenow=True — under the virtual-time runtime against the reference device; explicit in "
-            "every line and identical for the real code and the model: channel count (0..64, 100..255), the four "
-            "divider/ACK flag combinations, rx padding (0, 3, 4, 8, 16, 64, 255, random), random initial device state, "
-            "stream left running at connect time (half of the lines), stream running during the exchange with a stream "
-            "frame between every set request and its acknowledgement (a third), Python channel ids (negative, bool), "
-            "out-of-range ids and divider values; every request acknowledged; after every call the bytes written (padded), "
-            "client view, requested vector, device state and the client's device copy (read through "
-            "NxscopeHandler.dev_channel_get on the wrapper lines) are compared with the model; distinct = distinct line; "
-            "non-trivial = history with a call that writes")
+            "every line and identical for the real code and the model: channel count (0..64, 100..255; above 128 half of the ids "
+            ">= 128), the flags byte (0..255: the divider/ACK bits in every combination, reserved bits set in half of the lines), "
+            "rx padding (0, 3, 4, 8, 16, 64, 255, random), random initial device state; harness-side dimensions named in the "
+            "mode token: channel type bytes (UNDEF, NONE, every sample type, critical / reserved bits), stream left running at "
+            "connect time (half: 3 stream frames in the pipe + one emitted while the stop request is processed — a line whose "
+            "mode promises frames that were not produced is reported), stream running during the exchange with a stream frame "
+            "between every set request and its acknowledgement (30 %), stream started at CommHandler level and 65..150 frames "
+            "unread before the first call (10 %), a previous session on the SAME handler object followed by disconnect, a "
+            "changed device state and a second connect (20 %), Python channel ids (negative, bool), out-of-range ids and "
+            "divider values; fixed lines: every wrapper alone, flags bytes with reserved bits, UNDEF/critical channels enabled at "
+            "connect, reconnects, ids >= 128 on 129/200/255 channels, buffered requests overridden before the write, every "
+            "single change on two channels; thorough adds every padding / flags byte / type byte / divider / id >= 128 and every "
+            "pair of calls on two channels; every request acknowledged; the device receives the byte stream in rx-padding "
+            "blocks; after every call the bytes written (padded), client view, requested vector, device state and the client's "
+            "device copy (read through NxscopeHandler.dev_channel_get on the wrapper lines) are compared with the model, and "
+            "every line is judged by the oracle; distinct = distinct line; non-trivial = history with a call that writes")
     assumptions = ["virtual-time runtime (harness/vsim.py) preserves queue/lock/thread semantics",
                    "reference device (harness/refdev.py) is a conforming NxScope device"]
     outcomes = ["a"]
@@ -164,10 +197,71 @@ class C07(Prop):
             yield f"cfgx run {flags} 0 r 110 1,0,0 e2;W:a:a;v3:0;W:a:a;d0,1;W:a:a;W:a:a", "stream-during"
             yield f"cfgx run {flags} 16 hsr 110 1,0,0 e2!;v3:0!;d0,1;W:a:a;W:a:a;A;D!", "stream-during"
 
+    def r4_cases(self):
+        """targeted lines for the dimensions the second review found unvaried (REVIEW R4-B-H3, R4-B-H1) and the n = 2 corner"""
+        # (a) the flags byte: reserved bits set, the two meaningful bits in every combination
+        for i, fl in enumerate([0x83, 0x81, 0x82, 0x80, 0x07, 0xFC, 0xFD, 0xFE, 0xFF, 0x43, 0x04, 0x29]):
+            yield f"cfgx run {fl} {PADS[i % 8]} - 010 7,0,200 v5:0;e0;W:a:a;W:a:a", "flags-byte"
+            yield f"cfgx run {fl} {PADS[(i + 2) % 8]} h 010 7,0,200 v5:0!;e0,2;W:a:a;v9:-1;D!", "flags-byte"
+        # (b) channel types: UNDEF (0) channels enabled at connect time, critical bit, reserved type bits
+        for i, (ty, en) in enumerate([("0.10.138", "110"), ("0.0.0", "101"), ("128.1.19", "111"), ("10.0.138", "010"),
+                                      ("138.138.0", "001"), ("42.32.2", "100"), ("0.128.0", "111")]):
+            for calls in ("e2;W:a:a;W:a:a", "d1;v4:0,2;W:a:a;W:a:a", "W:a:a;A;W:a:a;N;W:a:a", "D;W:a:a;e0;W:a:a;W:a:a"):
+                yield (f"cfgx run {[3, 2, 1, 0x83][i % 4]} {PADS[i % 8]} {'h' if i % 2 else ''}/T{ty} {en} 7,0,200 {calls}",
+                       "channel-types")
+        # (c) reconnect on the same handler object, the device in another state at the second connect
+        for i, (prev, en, div, calls) in enumerate([
+                ("000:0,0,0:e0;W:a:a", "000", "0,0,0", "e1;W:a:a"),
+                ("000:0,0,0:e0;W:a:a", "000", "0,0,0", "W:a:a;W:a:a"),
+                ("010:1,2,3:A;v9:0,1;W:a:a", "010", "3,0,7", "W:a:a;d0;W:a:a"),
+                ("111:5,5,5:N;W:a:a;e2", "101", "0,4,0", "v4:0;e1;W:a:a;W:a:a"),
+                ("001:0,0,0:D;W:a:a;v7:2;e0", "110", "9,9,9", "D;W:a:a"),
+                ("110:0,0,0:", "001", "0,0,8", "e0;W:a:a;N;W:a:a")]):
+            for letters in ("", "h", "s", "hr"):
+                yield (f"cfgx run {[3, 2, 1, 0][(i + len(letters)) % 4] if i else 3} {PADS[(i + len(letters)) % 8]} "
+                       f"{letters}/R{prev} {en} {div} {calls}", "reconnect")
+        # (d) stream left running at connect time (frames in the pipe), on every flag combination, both handlers
+        for flags in range(4):
+            yield f"cfgx run {flags} {PADS[flags]} s 101 1,0,3 e1;W:a:a;v3:0;W:a:a;N;W:a:a", "stream-at-connect"
+            yield f"cfgx run {flags} {PADS[flags + 3]} hs/T2.138.19 011 0,2,0 e0!;v3:0;W:a:a;D!", "stream-at-connect"
+        # (e) single-channel requests for channel ids >= 128
+        for i, n in enumerate([129, 200, 255]):
+            for c in sorted({128, n - 1, 150 if n > 150 else 128}):
+                z = "0" * n
+                d = ",".join(["0"] * n)
+                yield f"cfgx run 3 {PADS[i]} - {z} {d} e{c};W:a:a;v7:{c};W:a:a;d{c};W:a:a", "high-ids"
+                yield f"cfgx run 2 {PADS[i + 4]} h {z} {d} e{c - n}!;v200:{c}!;W:a:a", "high-ids"
+        # R4-B-H1: the stream started at CommHandler level, nobody reads it, more than 64 frames before the write
+        for i, (fl, k) in enumerate([(3, 70), (2, 80), (3, 130), (0x83, 66)]):
+            yield f"cfgx run {fl} {PADS[i]} u/U{k} 100 0,0,0 e1;W:a:a;W:a:a", "unread-stream"
+            yield f"cfgx run {fl} {PADS[i + 3]} hu/U{k}/T3.138.10 101 2,0,0 e1!;v3:0;W:a:a;d0,2;W:a:a", "unread-stream"
+        # buffered requests overridden before the write (disable-all / default configuration after a buffered enable)
+        for i, calls in enumerate(["e1;W:a:a;e3;D;W:a:a", "e2;N;W:a:a", "e0;v4:0;D;W:a:a", "A;N;W:a:a", "e3;W:a:a;e1;N;e4;W:a:a",
+                                   "d0;A;W:a:a", "e1;d1;W:a:a", "v3:1;v0:1;W:a:a"]):
+            yield f"cfgx run {[3, 2, 1, 0][i % 4]} {PADS[i % 8]} - 10000 0,0,0,0,0 {calls}", "override-before-write"
+            yield f"cfgx run 3 {PADS[(i + 1) % 8]} h 00000 0,0,6,0,0 {calls};{calls.split(';')[0]};N!", "override-before-write"
+        # two channels: every single change from every enable state (a (channel, value) pair has the length of the state vector)
+        i = 0
+        for en in ("00", "01", "10", "11"):
+            for div in ("0,0", "1,1", "0,1", "3,0"):
+                for op in ("e0", "e1", "d0", "d1", "v0:0", "v1:1", "v1:0", "v0:1"):
+                    if (op[0] == "v") != (i % 2 == 1) and div not in ("0,0", "1,1"):
+                        i += 1
+                        continue
+                    yield (f"cfgx run {[3, 2, 3, 1][i % 4]} {PADS[i % 8]} {'h' if i % 3 == 0 else '-'} {en} {div} "
+                           f"{op};W:a:a;W:a:a", "two-channels")
+                    i += 1
+
     def exhaustive_cases(self):
         """thorough tier: every value of the one-byte dimensions on a short history"""
         for pad in range(256):           # every rx padding
             yield f"cfgx run {pad % 4} {pad} {['-', 'h', 'r', 'hs'][(pad >> 2) % 4]} 0110 0,9,0,200 e0;v{pad}:-1,1;W:a:a;d1,2;W:a:a;W:a:a", "all-paddings"
+        for fl in range(256):            # every flags byte
+            yield f"cfgx run {fl} {PADS[fl % 8]} {['-', 'h', 's', 'hr'][(fl >> 3) % 4]} 0110 0,9,0,200 v{fl}:0;e0;W:a:a;d1,2;W:a:a;W:a:a", "all-flags"
+        for ty in range(256):            # every channel type byte (streaming only where the type has a sample format)
+            st = ['-', 'h', 's', 'hr'][(ty >> 3) % 4] if 1 <= (ty & 0x1F) <= 19 else ['-', 'h'][(ty >> 3) % 2]
+            yield (f"cfgx run {ty % 4} {PADS[ty % 8]} {st.strip('-')}/T{ty}.10.{255 - ty if 1 <= ((255 - ty) & 0x1F) <= 19 else 2} "
+                   f"101 0,9,0 e1;v5:0;W:a:a;d0;W:a:a;W:a:a"), "all-types"
         for v in range(-1, 258):         # every divider value (and the first ones out of range), single and vector form
             yield f"cfgx run {1 + 2 * (v % 2)} {PADS[v % 8]} {'h' if v % 3 else '-'} 01 0,7 v{v}:0;W:a:a;v{v}:0,1;W:a:a", "all-dividers"
         for n in (1, 2, 5):              # every Python index of a short vector, and the first ones out of range
@@ -175,38 +269,76 @@ class C07(Prop):
                 for call in (f"e{c}", f"d{c}", f"v77:{c}", f"e0,{c}", f"v3:{c}!"):
                     yield (f"cfgx run 3 {PADS[(n + len(call)) % 8]} h {'10110'[:n]} {','.join('50604'[:n])} {call};W:a:a;A;{call};W:a:a",
                            "all-ids")
+        for c in range(128, 255):        # every single-channel id >= 128
+            yield (f"cfgx run {3 - c % 2} {PADS[c % 8]} {'h' if c % 3 == 0 else '-'} {'0' * 255} {','.join(['0'] * 255)} "
+                   f"e{c};v{c}:{c};W:a:a;d{c - 255};W:a:a", "all-high-ids")
+        ops = ["e0", "e1", "d0", "d1", "v0:0", "v1:1", "v1:0", "A", "N", "D", "W:a:a"]
+        i = 0
+        for en in ("00", "01", "10", "11"):   # two channels: every pair of calls, then a write
+            for a in ops:
+                for b in ops:
+                    yield (f"cfgx run {[3, 2, 1, 3][i % 4]} {PADS[i % 8]} {'h' if i % 2 else '-'} {en} {['0,0', '1,1', '1,0'][i % 3]} "
+                           f"{a};{b};W:a:a;W:a:a", "two-channels-pairs")
+                    i += 1
 
     def cases(self, rng, tier):
         T = tier == "thorough"
+        self._memo = {}
         if not _wired():
             log("[C07] WARNING: driver op `cfgx` is not wired into lean/Main.lean — running the `cfg run` cases only "
                 "(rx padding, Python ids and writenow calls are then not compared with the model)")
             yield from self.legacy_cases(rng, "all" if T else True)
             return
         yield from self.fixed_cases()
+        yield from self.r4_cases()
         yield from self.legacy_cases(rng, T)
         if T:
             yield from self.exhaustive_cases()
         for it in range(1500 if T else 110):
-            n = rng.choice([1, 2, 3, 4, 5, 8, 16, 64]) if it % 12 else rng.choice([100, 127, 128, 200, 254, 255])
-            flags = rng.randrange(4)
+            n = rng.choice([1, 2, 2, 3, 4, 5, 8, 16, 64]) if it % 12 else rng.choice([100, 127, 128, 129, 200, 254, 255])
+            flags = gen_flags(rng)
             pad = rng.choice(PADS) if rng.random() < 0.8 else rng.randrange(1, 256)
             high = rng.random() < 0.5
-            mode = ("h" if high else "") + ("s" if rng.random() < 0.5 else "") + ("r" if rng.random() < 0.35 else "")
+            r = rng.random()
+            stream = "r" if r < 0.3 else "u" if r < 0.4 else ""
+            letters = ("h" if high else "") + ("s" if rng.random() < 0.5 else "") + stream
             en = [rng.random() < 0.4 for _ in range(n)]
+            if stream == "u" and not any(en):
+                en[rng.randrange(n)] = True
             div = [rng.choice([0, 0, 3, 200]) for _ in range(n)]
-            ops = gen_history(rng, n, self.outcomes, ext=True, high=high)
+            types = gen_types(rng, n, any(c in letters for c in "sru"))
+            prev = None
+            if rng.random() < 0.2:
+                prev = ([rng.random() < 0.5 for _ in range(n)], [rng.choice([0, 0, 5, 255]) for _ in range(n)],
+                        gen_history(rng, n, "a", maxlen=5, ext=True, high=high))
+            flood = rng.choice([65, 70, 100, 150]) if stream == "u" else None
+            ops = gen_history(rng, n, self.outcomes, ext=True, high=high, big=n > 128)
             if rng.random() < 0.12:
                 bad = [f"e{n}", "v256:0", "v-1:0", f"d0,{n + 3}", f"v5:{n}", f"e{-n - 1}", f"d{-n - 5}", f"v7:0,{-n - 1}"]
                 if high:
                     bad += [f"e{n}!", f"d{-n - 1}!", "v256:0!", f"v5:0,{n}!"]
                 ops.insert(rng.randrange(len(ops) + 1), rng.choice(bad))
-            yield (f"cfgx run {flags} {pad} {mode or '-'} {sl.bits(en)} {sl.ints(div)} {';'.join(ops)}",
-                   f"flags{flags}" + ("-wrappers" if high else ""))
+            yield (f"cfgx run {flags} {pad} {cl.mode_str(letters, types, prev, flood)} {sl.bits(en)} {sl.ints(div)} {';'.join(ops)}",
+                   f"flags{flags & 3}" + ("-wrappers" if high else "") + ("-reconnect" if prev else ""))
 
     # -- real code -----------------------------------------------------------------------------------------------
-    def run(self, p):
-        out, info = cl.run_calls(p["flags"], p["pad"], p["mode"], p["en"], p["div"], p["calls"])
+    _memo = None
+
+    def run(self, p, key=None):
+        """(states, info, exception or None); in the quick tier the run of a line is kept, so the oracle judges the
+        very run the correspondence step compared (and every quick line is judged whatever the machine load)"""
+        if key is not None and self._memo is not None and key in self._memo:
+            return self._memo[key]
+        exc = None
+        try:
+            out, info = cl.run_calls(p["flags"], p["pad"], p["mode"], p["en"], p["div"], p["calls"])
+        except (KeyboardInterrupt, SystemExit):
+            raise
+        except BaseException as e:  # noqa: BLE001 - an exception of the library or a simulation verdict
+            exc = e
+            info = getattr(e, "c07_info", None) or {"out": []}
+            info.setdefault("errors", [])
+            out = list(info.get("out", []))
         if p["legacy"] and p["pad"]:
             # the `cfg run` model knows no padding: compare the frames
             def strip(st):
@@ -215,15 +347,47 @@ class C07(Prop):
                     return st
                 return "s=" + ",".join(sl.hexs(sl.strip_pad(bytes.fromhex(x))) for x in f[0][2:].split(",")) + ";" + f[1]
             out = [strip(st) for st in out]
-        return out, info
+        res = (out, info, exc)
+        if key is not None and self._memo is not None:
+            self._memo[key] = res
+        return res
+
+    @staticmethod
+    def vacuous(p, info):
+        """a line whose mode promises stream frames that were never produced"""
+        letters = cl.parse_mode(p["mode"])["letters"]
+        if "s" in letters and any(p["en"]) and not info.get("stream_frames_at_connect"):
+            return "mode s: no stream frame was under way at connect time"
+        if "u" in letters and any(p["en"]) and info.get("flood_frames", 0) < 65:
+            return f"mode u: only {info.get('flood_frames')} stream frames before the first call"
+        return None
 
     def impl(self, line):
-        out, info = self.run(parse_line(line))
+        p = parse_line(line)
+        out, info, exc = self.run(p, line)
+        if exc is not None:
+            return "harness-exc " + type(exc).__name__ + ": " + str(exc)[:100]
         if info.get("unaligned"):
             return "unaligned-write " + repr(info["unaligned"][:3])
-        if info["errors"] or info["live_after"]:
-            return "harness: " + repr(info["errors"]) + repr(info["live_after"])
+        if info["errors"] or info["live_after"] or info.get("prev_live_after"):
+            return "harness: " + repr(info["errors"]) + repr(info["live_after"]) + repr(info.get("prev_live_after"))
+        if self.vacuous(p, info):
+            return "harness: " + self.vacuous(p, info)
         return "ok " + " | ".join(out)
+
+    def extra_checks(self, rng, tier, ev):
+        """EVERY line of the run is judged by the oracle (on the run the correspondence step compared), in the quick tier not
+        only the time-boxed sample of common.run_check"""
+        vs = []
+        for line in list(self._memo or {}):
+            v = self.oracle(line)
+            if v:
+                v.setdefault("case", line)
+                vs.append(v)
+                if len(vs) >= 6:
+                    break
+        ev["coverage"]["lines_judged_by_oracle"] = len(self._memo or {})
+        return vs
 
     def nontrivial(self, line, out):
         return ";W:" in line or " W:" in line or "!" in line
@@ -231,32 +395,44 @@ class C07(Prop):
     # -- the property, judged on the real code ---------------------------------------------------------------------
     def oracle(self, line, impl_out=None):
         p = parse_line(line)
-        v = self.judge(p)
+        v = self.judge(p, line)
         if v:
             # the dimensions of the run spelled out (for a `cfg run` line they come from a hash of the line)
+            m = cl.parse_mode(p["mode"])
             v["dimensions"] = {"flags": p["flags"], "rx_padding": p["pad"], "channels": len(p["en"]),
-                               "handler": "NxscopeHandler wrappers" if "h" in p["mode"] else "CommHandler",
-                               "stream_left_running_at_connect": "s" in p["mode"],
-                               "stream_running_during_exchange": "r" in p["mode"]}
+                               "handler": "NxscopeHandler wrappers" if "h" in m["letters"] else "CommHandler",
+                               "stream_left_running_at_connect": "s" in m["letters"],
+                               "stream_running_during_exchange": "r" in m["letters"],
+                               "stream_started_at_CommHandler_level_and_unread_frames": m["flood"] if "u" in m["letters"] else None,
+                               "channel_types": m["types"] or "all 10 (FLOAT)",
+                               "previous_session_on_the_same_handler": None if not m["prev"] else
+                               {"device_en": sl.bits(m["prev"][0]), "device_div": sl.ints(m["prev"][1]), "calls": m["prev"][2],
+                                "then": "disconnect, device put into the initial state of the line, connect again"},
+                               "initial_device_state": f"{sl.bits(p['en'])}/{sl.ints(p['div'])}", "calls": p["calls"]}
         return v
 
-    def judge(self, p):
+    def judge(self, p, key=None):
         en, div, calls, flags, pad, mode = p["en"], p["div"], p["calls"], p["flags"], p["pad"], p["mode"]
-        try:
-            out, info = self.run(p)
-        except Exception as e:
-            return {"key": "session-raises", "what": f"{type(e).__name__}: {e}", "expected": "no exception", "observed": type(e).__name__}
-        if info.get("unaligned"):
-            return {"key": "unaligned-write", "what": f"with rx padding {pad} a request was written with a length that is not a multiple of it "
-                    f"(a device receiving in rx-padding-sized blocks never consumes it): {info['unaligned'][:3]}",
-                    "expected": "every write padded to a multiple of the rx padding", "observed": str(info["unaligned"][:3])}
+        out, info, exc = self.run(p, key)
+        v = self.judge_states(p, out, info) if info.get("dev_after_connect") else None
+        if v:
+            if info.get("unaligned_stream"):
+                v["note"] = (f"with rx padding {pad} the bytes written by a call were not a multiple of it (a device receiving in "
+                             f"rx-padding-sized blocks does not consume the rest): {info['unaligned_stream'][:3]}")
+            return v
+        if exc is not None:
+            return {"key": "session-raises", "what": f"the session did not come back: {type(exc).__name__}: {str(exc)[:300]}",
+                    "expected": "every call returns", "observed": type(exc).__name__, "states_so_far": out[-2:]}
         if info["errors"]:
             return {"key": "thread-died", "what": "a library thread died: " + repr(info["errors"][0]), "expected": "-", "observed": "-"}
-        if info["dev_started_after_connect"]:
-            return {"key": "stream-not-stopped", "what": "device still streaming after connect", "expected": "stopped", "observed": "started"}
-        if info["dev_after_connect"] != (sl.bits(en), sl.ints(div)):
+        return None
+
+    def judge_states(self, p, out, info):
+        en, div, calls, flags, pad, mode = p["en"], p["div"], p["calls"], p["flags"], p["pad"], p["mode"]
+        mode = cl.parse_mode(mode)["letters"]
+        if info["dev_after_connect"] != (sl.bits(en), sl.ints(div)) or info.get("dev_before_calls", info["dev_after_connect"]) != (sl.bits(en), sl.ints(div)):
             return {"key": "connect-changed-device", "what": "connecting (and starting the stream) changed the device's channel configuration",
-                    "expected": f"{sl.bits(en)}/{sl.ints(div)}", "observed": "/".join(info["dev_after_connect"])}
+                    "expected": f"{sl.bits(en)}/{sl.ints(div)}", "observed": "/".join(info.get("dev_before_calls", info["dev_after_connect"]))}
         div_sup = bool(flags & 1)
         req_en, req_div = list(en), list(div)
         dev_en, dev_div = list(en), list(div)
